@@ -180,6 +180,49 @@ pub fn run(args: &[String]) {
             }
         }
     }
+    // callbacks that ask for output points (ControlFlag::XOut) from solvers built with dense_output(false): whenever an
+    // interpolant is handed over it must be valid on its step (equal to the stored states at both ends)
+    {
+        struct XoutRec { grid: f64, dir: f64, next: f64, prev_y: Vec<f64>, bad: Option<String>, with_interp: usize }
+        impl ivp::solout::SolOut for XoutRec {
+            fn solout(&mut self, xold: f64, x: &mut f64, y: &mut [f64], ip: Option<&ivp::dense::StepInterpolant<'_>>) -> ControlFlag {
+                if let Some(ip) = ip {
+                    self.with_interp += 1;
+                    let mut a = vec![0.0; y.len()];
+                    let mut b = vec![0.0; y.len()];
+                    ip.interpolate(xold, &mut a);
+                    ip.interpolate(*x, &mut b);
+                    if self.bad.is_none() && !close(&a, &self.prev_y, 1e-9) { self.bad = Some(format!("interpolant of step [{}, {}] gives {:?} at its left end, the state there was {:?}", xold, *x, a, self.prev_y)); }
+                    if self.bad.is_none() && !close(&b, y, 1e-9) { self.bad = Some(format!("interpolant of step [{}, {}] gives {:?} at its right end, the accepted state is {:?}", xold, *x, b, y)); }
+                }
+                self.prev_y = y.to_vec();
+                while (self.next - *x) * self.dir <= 0.0 { self.next += self.dir * self.grid; }
+                ControlFlag::XOut(self.next)
+            }
+        }
+        let mut k = 0;
+        for method in ALL_METHODS {
+            for (xend, grid) in [(2.0, 0.5), (2.0, 0.37), (-2.0, 0.5)] {
+                let p = Prob::new(Kind::Harmonic);
+                let y0 = p.y0();
+                let mut rec = XoutRec { grid, dir: if xend > 0.0 { 1.0 } else { -1.0 }, next: 0.0, prev_y: y0.clone(), bad: None, with_interp: 0 };
+                let (rt, at): (ivp::methods::Tolerance, ivp::methods::Tolerance) = (1e-5.into(), 1e-8.into());
+                let res = match method {
+                    Method::RK4 => RK4::builder().dense_output(false).build().solve(&p, 0.0, &y0, xend, xend / 20.0, Some(&mut rec)),
+                    Method::RK23 => RK23::builder().dense_output(false).build().solve(&p, 0.0, &y0, xend, rt, at, Some(&mut rec)),
+                    Method::DOPRI5 => DOPRI5::builder().dense_output(false).build().solve(&p, 0.0, &y0, xend, rt, at, Some(&mut rec)),
+                    Method::DOP853 => DOP853::builder().dense_output(false).build().solve(&p, 0.0, &y0, xend, rt, at, Some(&mut rec)),
+                    Method::RADAU => RADAU::builder().dense_output(false).mass_storage(MatrixStorage::Identity).build().solve(&p, 0.0, &y0, xend, rt, at, Some(&mut rec)),
+                    Method::BDF => BDF::builder().build().solve(&p, 0.0, &y0, xend, rt, at, Some(&mut rec)),
+                };
+                let why = match (&res, &rec.bad) { (Err(e), _) => format!("error {:?}", e), (_, Some(b)) => b.clone(), _ => String::new() };
+                if !why.is_empty() { n_fail += 1; }
+                println!("{{\"kind\":\"dense\",\"case\":\"xout-{}\",\"method\":\"{}\",\"problem\":\"Harmonic\",\"xend\":{},\"grid\":{},\"interpolants\":{},\"finding_key\":\"c06-xout-interpolant\",\"ok\":{},\"why\":{:?}}}",
+                    k, method_name(method), xend, grid, rec.with_interp, why.is_empty(), why);
+                k += 1;
+            }
+        }
+    }
     // zero-length run: the constant continuous solution returns y0 over its whole (tiny) covered span, for every method
     for method in ALL_METHODS {
         let p = Prob::new(Kind::Harmonic);
